@@ -252,6 +252,22 @@ func jobShape(j *jobCtx) {
 				ms = []int{3, 4, 5, 6, 7, 8, 16, 32}
 			}
 		}
+		if k == "btree" {
+			// wide nodes and three levels (tens of thousands of keys): what a node can spare or must borrow there cannot
+			// happen in the small orders; fixed cost, first
+			type wide struct {
+				m, n int
+				pat  string
+			}
+			ws := []wide{{200, 60000, "asc"}, {200, 40000, "random"}, {129, 30000, "churn"}}
+			if !j.quick() {
+				ws = append(ws, wide{256, 80000, "desc"}, wide{128, 40000, "zigzag"}, wide{1000, 200000, "random"})
+			}
+			for _, w := range ws {
+				shapeRun(j, k, w.m, w.pat, w.n, j.r)
+				j.states++
+			}
+		}
 		for _, m := range ms {
 			for _, pat := range []string{"asc", "desc", "zigzag", "random", "churn"} {
 				for _, n := range sizes {
